@@ -10,6 +10,7 @@ import (
 	"strings"
 	"sync"
 	"testing"
+	"time"
 
 	"pgregory.net/rapid"
 )
@@ -231,7 +232,16 @@ func envInt(name string, def int) int {
 func runProperty(t *testing.T, prop string, gen *rapid.Generator[Case], run RunFunc) {
 	st := NewStats(prop)
 	defer st.Flush()
+	// Time budget: when VERIF_SOFT_DEADLINE_S seconds have passed the remaining cases are not run (they return at
+	// once and are counted as such), so that a slow machine ends the run with fewer evaluated cases instead of
+	// running into the go test deadline. Never a verdict.
+	soft := time.Duration(envInt("VERIF_SOFT_DEADLINE_S", 0)) * time.Second
+	start := time.Now()
 	rapid.Check(t, func(rt *rapid.T) {
+		if soft > 0 && time.Since(start) > soft {
+			st.Class("cases-not-run-after-the-time-budget", 1)
+			return
+		}
 		c := gen.Draw(rt, "case")
 		c.Prop = prop
 		if err := safeRun(run, c, st); err != nil {
